@@ -87,7 +87,10 @@ TEXT = {
           "reference (duplicate-free list as set, list as bag with max-extraction) that is PROVED in Lean to be the Finset/Multiset "
           "semantics for all states; the slot-exact mirror of the open-addressing table (probing, backward-shift deletion, growth) and "
           "of the binary heap is additionally compared slot by slot. Mirror-level theorems so far: probe postcondition, soundness of "
-          "contains, enumeration length; the full probe-chain refinement proof of the mirror is not done (correspondence only).",
+          "contains, enumeration length; for the heap mirror, heapify_up / heapify_down only permute the array (siftUp_perm, "
+          "siftDown_perm), so push adds exactly its argument and pop removes exactly one occurrence of the element it returns "
+          "(C20_heap_push_perm, C20_heap_pop_perm: the array is always the multiset pushed minus popped, for every history). The heap-"
+          "order invariant (the first slot is a maximum) and the probe-chain refinement of the table are not proved (correspondence only).",
   "design_ref": "5.20",
   "note": "proof covers the reference semantics and basic mirror lemmas; the refinement mirror -> reference is checked per history (20k histories per quick run with forced collisions, wrap-around, growth), not proved; elements abstracted to (identity, reported hash)",
   "technique": "Lean 4 proved reference semantics + slot-exact mirror model + history-based differential correspondence",
